@@ -291,7 +291,7 @@ pub fn run(report: &Report, budget: &Budget) {
     let thorough = report.thorough();
     let depth = if thorough { 3 } else { 2 };
     let hist_budget = Budget::new(if thorough { 600 } else { 25 });
-    let st = hist::explore(report, &hist_budget, "C07", depth, thorough, thorough, &oracle, None, None);
+    let st = hist::explore(report, &hist_budget, "C07", depth, thorough, thorough, thorough, &oracle, None, None);
     hist::write_stats(report, &st, depth);
     report.set("history_part", json!({"states": st.states, "transitions": st.transitions, "depth_completed": st.depth_completed}));
     // Part 2: two racing backups (E3)
